@@ -99,6 +99,7 @@ def gen_case(rng, idx, tier, emphasis=None):
 
 class C01(object):
     id = 'C01'
+    anchors = ('Sector.AddCashFlow', 'Model._GenerateRegisteredCashFlows', 'Market._GenerateTermsLowLevel', 'Market._GenerateMultiSupply', 'TaxFlow._GenerateEquations', 'DepositMarket._GenerateEquations', 'CentralBank._GenerateEquations', 'FixedMarginBusiness._GenerateEquations', 'ForexTransations._SendMoney', 'ForexTransations._ReceiveMoney', 'InternationalGold.SetGoldPurchases')
     title = 'Every generated model is stock-flow consistent in each currency'
     rule = ('one case = one random model specification (1-3 currency zones; single country or federation with a '
             'central government region; consolidated government, treasury+central bank or gold-standard government; '
